@@ -68,6 +68,16 @@ func runC14(t *mon.T, raw json.RawMessage) {
 	}
 	r := gen.Rand(d.Seed)
 	content := gen.MakeContent(r, gen.ContentOpts{MinBlocks: 1, MaxBlocks: d.MaxBlocks, MaxRoots: 3, Dups: true, Boundaries: true, Block: gen.BlockOpts{MaxSize: 300}})
+	if d.Seed%4 == 1 {
+		// one block whose CID is longer than MaxIndexCidSize (an option that binds index code only)
+		lb := gen.LongIdentityBlock(r)
+		if i := r.Intn(len(content.Blocks) + 1); len(content.Blocks) < d.MaxBlocks {
+			content.Blocks = append(content.Blocks[:i], append([]refcar.Block{lb}, content.Blocks[i:]...)...)
+		} else {
+			content.Blocks[i%len(content.Blocks)] = lb
+		}
+		t.Cover("input:cid-longer-than-max-index-cid-size")
+	}
 	payload := refcar.EncodeV1(content.Roots, content.NilRoots, content.Blocks)
 	ref, _ := refcar.DecodeV1(payload, false)
 	file := payload
